@@ -622,5 +622,470 @@ theorem decField_normal (v : JVal) (d : Dec) (h : decField v = .ok d) : DecNorma
 
 end Decimals
 
+/-! ## UUIDs -/
+
+/-- canonical hexadecimal digit: lower case, ASCII -/
+def LowerHex (c : Char) : Prop := hexLower c = some c ∧ c.toNat < 128
+
+theorem hexLower_out (c x : Char) (h : hexLower c = some x) : LowerHex x := by
+  unfold hexLower at h
+  simp only [char_le_iff] at h
+  have e0 : ('0' : Char).toNat = 48 := rfl
+  have e9 : ('9' : Char).toNat = 57 := rfl
+  have ea : ('a' : Char).toNat = 97 := rfl
+  have ef : ('f' : Char).toNat = 102 := rfl
+  have eA : ('A' : Char).toNat = 65 := rfl
+  have eF : ('F' : Char).toNat = 70 := rfl
+  rw [e0, e9, ea, ef, eA, eF] at h
+  split at h
+  · rename_i hr
+    cases h
+    refine ⟨?_, by omega⟩
+    unfold hexLower
+    simp only [char_le_iff]
+    rw [e0, e9, ea, ef, if_pos hr]
+  · split at h
+    · rename_i hr
+      cases h
+      have hc : Char.ofNat c.toNat = c := Char.ofNat_toNat c
+      have : c.toNat = 65 ∨ c.toNat = 66 ∨ c.toNat = 67 ∨ c.toNat = 68 ∨ c.toNat = 69 ∨ c.toNat = 70 := by omega
+      rcases this with e | e | e | e | e | e <;> (rw [e] at hc ⊢; subst hc; unfold LowerHex; decide)
+    · cases h
+
+theorem hexN_out : ∀ (n : Nat) (cs a r : List Char), hexN n cs = some (a, r) →
+    a.length = n ∧ (∀ c ∈ a, LowerHex c) ∧ cs = cs.take n ++ r ∧ n ≤ cs.length := by
+  intro n
+  induction n with
+  | zero =>
+    intro cs a r h
+    simp only [hexN, Option.some.injEq, Prod.mk.injEq] at h
+    obtain ⟨rfl, rfl⟩ := h
+    simp
+  | succ n ih =>
+    intro cs a r h
+    cases cs with
+    | nil => simp [hexN] at h
+    | cons c cs =>
+      simp only [hexN] at h
+      split at h
+      · rename_i x xs rest hx hxs
+        cases h
+        obtain ⟨h1, h2, h3, h4⟩ := ih cs xs r hxs
+        refine ⟨by simp [h1], ?_, ?_, by simp; omega⟩
+        · intro y hy
+          rcases List.mem_cons.mp hy with rfl | hy
+          · exact hexLower_out c _ hx
+          · exact h2 y hy
+        · simp only [List.take_succ_cons, List.cons_append]
+          rw [← h3]
+      · cases h
+
+theorem hexN_fix : ∀ (a rest : List Char), (∀ c ∈ a, LowerHex c) → hexN a.length (a ++ rest) = some (a, rest) := by
+  intro a
+  induction a with
+  | nil => intro rest _; rfl
+  | cons c a ih =>
+    intro rest h
+    simp only [List.length_cons, List.cons_append, hexN]
+    rw [(h c List.mem_cons_self).1, ih rest (fun x hx => h x (List.mem_cons_of_mem _ hx))]
+
+/-- the canonical text of a UUID: 8-4-4-4-12 lower-case hexadecimal digits -/
+def CanonUuid (u : List Char) : Prop :=
+  ∃ a b c d e : List Char, u = a ++ '-' :: (b ++ '-' :: (c ++ '-' :: (d ++ '-' :: e))) ∧
+    a.length = 8 ∧ b.length = 4 ∧ c.length = 4 ∧ d.length = 4 ∧ e.length = 12 ∧
+    (∀ x ∈ a, LowerHex x) ∧ (∀ x ∈ b, LowerHex x) ∧ (∀ x ∈ c, LowerHex x) ∧ (∀ x ∈ d, LowerHex x) ∧ (∀ x ∈ e, LowerHex x)
+
+theorem uuidHyph_out (cs u : List Char) (h : uuidHyph cs = some u) : CanonUuid u := by
+  unfold uuidHyph at h
+  split at h
+  · cases h
+  · rename_i a r1 h1
+    split at h
+    · cases h
+    · split at h
+      · cases h
+      · rename_i b r3 h3
+        split at h
+        · cases h
+        · split at h
+          · cases h
+          · rename_i c r5 h5
+            split at h
+            · cases h
+            · split at h
+              · cases h
+              · rename_i d r7 h7
+                split at h
+                · cases h
+                · split at h
+                  · cases h
+                  · rename_i e r9 h9
+                    split at h
+                    · cases h
+                      obtain ⟨la, ha, _, _⟩ := hexN_out _ _ _ _ h1
+                      obtain ⟨lb, hb, _, _⟩ := hexN_out _ _ _ _ h3
+                      obtain ⟨lc, hc, _, _⟩ := hexN_out _ _ _ _ h5
+                      obtain ⟨ld, hd, _, _⟩ := hexN_out _ _ _ _ h7
+                      obtain ⟨le, he, _, _⟩ := hexN_out _ _ _ _ h9
+                      exact ⟨a, b, c, d, e, rfl, la, lb, lc, ld, le, ha, hb, hc, hd, he⟩
+                    · cases h
+
+theorem uuidHyph_canon (u : List Char) (h : CanonUuid u) : uuidHyph u = some u := by
+  obtain ⟨a, b, c, d, e, rfl, la, lb, lc, ld, le, ha, hb, hc, hd, he⟩ := h
+  unfold uuidHyph
+  have h1 := hexN_fix a ('-' :: (b ++ '-' :: (c ++ '-' :: (d ++ '-' :: e)))) ha
+  have h3 := hexN_fix b ('-' :: (c ++ '-' :: (d ++ '-' :: e))) hb
+  have h5 := hexN_fix c ('-' :: (d ++ '-' :: e)) hc
+  have h7 := hexN_fix d ('-' :: e) hd
+  have h9 := hexN_fix e [] he
+  rw [la] at h1; rw [lb] at h3; rw [lc] at h5; rw [ld] at h7; rw [le, List.append_nil] at h9
+  simp only [h1, dash, if_true, h3, h5, h7, h9, List.isEmpty_nil]
+
+theorem lowerHex_take {l : List Char} (h : ∀ x ∈ l, LowerHex x) (n : Nat) : ∀ x ∈ l.take n, LowerHex x :=
+  fun x hx => h x (List.mem_of_mem_take hx)
+
+theorem lowerHex_drop {l : List Char} (h : ∀ x ∈ l, LowerHex x) (n : Nat) : ∀ x ∈ l.drop n, LowerHex x :=
+  fun x hx => h x (List.mem_of_mem_drop hx)
+
+theorem uuidSimple_out (cs u : List Char) (h : uuidSimple cs = some u) : CanonUuid u := by
+  unfold uuidSimple at h
+  split at h
+  · cases h
+  · rename_i x r hx
+    split at h
+    · cases h
+      obtain ⟨lx, hh, _, _⟩ := hexN_out _ _ _ _ hx
+      refine ⟨_, _, _, _, _, rfl, ?_, ?_, ?_, ?_, ?_, lowerHex_take hh _, lowerHex_take (lowerHex_drop hh _) _,
+        lowerHex_take (lowerHex_drop hh _) _, lowerHex_take (lowerHex_drop hh _) _, lowerHex_drop hh _⟩ <;>
+        simp [List.length_take, List.length_drop, lx]
+    · cases h
+
+theorem canon_length (u : List Char) (h : CanonUuid u) : u.length = 36 ∧ u.all (fun c => decide (c.toNat < 128)) = true := by
+  obtain ⟨a, b, c, d, e, rfl, la, lb, lc, ld, le, ha, hb, hc, hd, he⟩ := h
+  refine ⟨by simp [la, lb, lc, ld, le], ?_⟩
+  rw [List.all_eq_true]
+  intro x hx
+  simp only [List.mem_append, List.mem_cons] at hx
+  simp only [decide_eq_true_eq]
+  rcases hx with hx | rfl | hx | rfl | hx | rfl | hx | rfl | hx
+  · exact (ha x hx).2
+  · decide
+  · exact (hb x hx).2
+  · decide
+  · exact (hc x hx).2
+  · decide
+  · exact (hd x hx).2
+  · decide
+  · exact (he x hx).2
+
+theorem uuidParse_out (cs u : List Char) (h : uuidParse cs = some u) : CanonUuid u := by
+  unfold uuidParse at h
+  split at h
+  · split at h
+    · exact uuidSimple_out _ _ h
+    · split at h
+      · exact uuidHyph_out _ _ h
+      · split at h
+        · split at h
+          · exact uuidHyph_out _ _ h
+          · cases h
+        · split at h
+          · split at h
+            · exact uuidHyph_out _ _ h
+            · cases h
+          · cases h
+  · cases h
+
+theorem uuidParse_canon (u : List Char) (h : CanonUuid u) : uuidParse u = some u := by
+  obtain ⟨hl, ha⟩ := canon_length u h
+  unfold uuidParse
+  rw [if_pos ha, if_neg (by omega), if_pos hl]
+  exact uuidHyph_canon u h
+
+/-- the canonical text reads back as itself -/
+theorem uuidParse_idem (cs u : List Char) (h : uuidParse cs = some u) : uuidParse u = some u :=
+  uuidParse_canon u (uuidParse_out cs u h)
+
+
+/-! ## timestamps -/
+
+section Timestamps
+open Time Dec
+
+theorem year_bounds (y : Int) (m d : Nat) (hm : 1 ≤ m ∧ m ≤ 12) (hd : 1 ≤ d ∧ d ≤ 31)
+    (hlo : -4371586 ≤ daysFromCivil y m d) (hhi : daysFromCivil y m d ≤ 2932895) : -9999 ≤ y ∧ y ≤ 9999 := by
+  unfold daysFromCivil at hlo hhi
+  simp only at hlo hhi
+  constructor
+  · by_cases h2 : m ≤ 2
+    · simp only [h2, if_true] at hlo
+      have : ¬ m > 2 := by omega
+      simp only [this, if_false] at hlo
+      omega
+    · simp only [h2, if_false] at hlo
+      have : m > 2 := by omega
+      simp only [this, if_true] at hlo
+      omega
+  · by_cases h2 : m ≤ 2
+    · simp only [h2, if_true] at hhi
+      have : ¬ m > 2 := by omega
+      simp only [this, if_false] at hhi
+      omega
+    · simp only [h2, if_false] at hhi
+      have : m > 2 := by omega
+      simp only [this, if_true] at hhi
+      omega
+
+/-- the decimal digit character of `k % 10` -/
+def dch (k : Nat) : Char := Char.ofNat (48 + k % 10)
+
+theorem dch_cases (k : Nat) (P : Char → Prop) (h : ∀ r : Fin 10, P (Char.ofNat (48 + r.val))) : P (dch k) :=
+  h ⟨k % 10, Nat.mod_lt _ (by decide)⟩
+
+theorem isDig_dch (k : Nat) : isDig (dch k) = true := dch_cases k (fun c => isDig c = true) (by decide)
+
+theorem digitVal_dch (k : Nat) : digitVal (dch k) = k % 10 := by
+  have : ∀ r : Fin 10, digitVal (Char.ofNat (48 + r.val)) = r.val := by decide
+  exact this ⟨k % 10, Nat.mod_lt _ (by decide)⟩
+
+theorem dch_ne (k : Nat) : dch k ≠ '-' ∧ dch k ≠ '+' ∧ dch k ≠ '.' ∧ dch k ≠ 'T' ∧ dch k ≠ 'Z' :=
+  dch_cases k (fun c => c ≠ '-' ∧ c ≠ '+' ∧ c ≠ '.' ∧ c ≠ 'T' ∧ c ≠ 'Z') (by decide)
+
+theorem dch_zero (k : Nat) (h : k % 10 = 0) : dch k = '0' := by unfold dch; rw [h]
+
+theorem digitsW_two (n : Nat) : digitsW 2 n = [dch (n / 10), dch n] := rfl
+theorem digitsW_four (n : Nat) : digitsW 4 n = [dch (n / 10 / 10 / 10), dch (n / 10 / 10), dch (n / 10), dch n] := rfl
+theorem digitsW_six (n : Nat) : digitsW 6 n =
+    [dch (n / 10 / 10 / 10 / 10 / 10), dch (n / 10 / 10 / 10 / 10), dch (n / 10 / 10 / 10), dch (n / 10 / 10), dch (n / 10), dch n] := rfl
+
+theorem digitsW_eq : ∀ (k n : Nat), digitsW k n = digitsOf k n
+  | 0, _ => rfl
+  | k + 1, n => by simp only [digitsW, digitsOf, digitChar, digitsW_eq k]
+
+theorem lexDate_text (y m d : Nat) (rest : List Char) (hy : y < 10000) (hm : m < 100) (hd : d < 100) :
+    lexDate (digitsW 4 y ++ ['-'] ++ digitsW 2 m ++ ['-'] ++ digitsW 2 d ++ rest) = some (y, m, d, rest) := by
+  simp only [digitsW_four, digitsW_two, List.cons_append, List.nil_append, lexDate, isDig_dch, Bool.and_true,
+    beq_self_eq_true, if_true, num2, digitsVal, List.foldl_cons, List.foldl_nil, digitVal_dch, Option.some.injEq, Prod.mk.injEq,
+    and_true]
+  refine ⟨by omega, by omega, by omega⟩
+
+theorem lexClock_text (h mi s : Nat) (rest : List Char) (hh : h < 100) (hmi : mi < 100) (hs : s < 100) :
+    lexClock (digitsW 2 h ++ [':'] ++ digitsW 2 mi ++ [':'] ++ digitsW 2 s ++ rest) = some (h, mi, s, rest) := by
+  simp only [digitsW_two, List.cons_append, List.nil_append, lexClock, isDig_dch, Bool.and_true,
+    beq_self_eq_true, if_true, num2, digitVal_dch, Option.some.injEq, Prod.mk.injEq, and_true]
+  refine ⟨by omega, by omega, by omega⟩
+
+theorem mem_takeWhile_true {α} (p : α → Bool) : ∀ (l : List α) (c : α), c ∈ l.takeWhile p → p c = true
+  | [], c, h => by simp at h
+  | a :: l, c, h => by
+    simp only [List.takeWhile_cons] at h
+    split at h
+    · rename_i ha
+      rcases List.mem_cons.mp h with rfl | h'
+      · exact ha
+      · exact mem_takeWhile_true p l c h'
+    · simp at h
+
+theorem trimZeros_decomp (l : List Char) :
+    l = trimZeros l ++ List.replicate (l.length - (trimZeros l).length) '0' := by
+  unfold trimZeros
+  have h := List.takeWhile_append_dropWhile (p := (· == '0')) (l := l.reverse)
+  have hall : ∀ c ∈ l.reverse.takeWhile (· == '0'), c = '0' := by
+    intro c hc
+    have := mem_takeWhile_true _ _ _ hc
+    simpa using this
+  have hrep : l.reverse.takeWhile (· == '0') = List.replicate (l.reverse.takeWhile (· == '0')).length '0' :=
+    List.eq_replicate_of_mem hall
+  have hlen : (l.reverse.takeWhile (· == '0')).length + (l.reverse.dropWhile (· == '0')).length = l.length := by
+    have := congrArg List.length h
+    rw [List.length_append, List.length_reverse] at this
+    exact this
+  have e : l = (l.reverse.dropWhile (· == '0')).reverse ++ (l.reverse.takeWhile (· == '0')).reverse := by
+    rw [← List.reverse_append, h, List.reverse_reverse]
+  rw [List.length_reverse]
+  have hk : l.length - (l.reverse.dropWhile (· == '0')).length = (l.reverse.takeWhile (· == '0')).length := by omega
+  rw [hk]
+  conv => lhs; rw [e]
+  rw [hrep, List.reverse_replicate, List.length_replicate]
+
+theorem trimZeros_sub (l : List Char) : ∀ c ∈ trimZeros l, c ∈ l := by
+  intro c hc
+  unfold trimZeros at hc
+  rw [List.mem_reverse] at hc
+  exact List.mem_reverse.mp ((List.dropWhile_sublist _).subset hc)
+
+theorem trimZeros_length (l : List Char) : (trimZeros l).length ≤ l.length := by
+  have := congrArg List.length (trimZeros_decomp l)
+  simp only [List.length_append, List.length_replicate] at this
+  omega
+
+theorem isDig_digitsW (k n : Nat) : ∀ c ∈ digitsW k n, isDig c = true := by
+  induction k generalizing n with
+  | zero => intro c hc; simp [digitsW] at hc
+  | succ k ih =>
+    intro c hc
+    simp only [digitsW, List.mem_append, List.mem_singleton] at hc
+    rcases hc with hc | rfl
+    · exact ih _ c hc
+    · exact isDig_dch n
+
+theorem fracNs_trim (sub : Nat) (h : sub < 1000000000) : fracNs (trimZeros (digitsW 9 sub)) = sub := by
+  have hd := trimZeros_decomp (digitsW 9 sub)
+  have hl : (digitsW 9 sub).length = 9 := by rw [digitsW_eq]; exact length_digitsOf 9 sub
+  have hv : digitsVal (digitsW 9 sub) = sub := by
+    rw [digitsW_eq, digitsVal_digitsOf]; omega
+  have htl := trimZeros_length (digitsW 9 sub)
+  rw [hl] at hd htl
+  unfold fracNs
+  rw [hd, digitsVal_append_zeros] at hv
+  exact hv
+
+theorem trim_ne_nil (sub : Nat) (h : sub < 1000000000) (h0 : sub ≠ 0) : trimZeros (digitsW 9 sub) ≠ [] := by
+  intro e
+  have := fracNs_trim sub h
+  rw [e] at this
+  simp [fracNs, digitsVal] at this
+  omega
+
+theorem lexFrac_text (sub : Nat) (h : sub < 1000000000) :
+    lexFrac (fracJ sub ++ ['Z']) = some (if sub = 0 then none else some (trimZeros (digitsW 9 sub)), ['Z']) := by
+  unfold fracJ
+  by_cases h0 : sub = 0
+  · simp only [h0, if_true, List.nil_append]
+    rfl
+  · simp only [h0, if_false, List.cons_append]
+    have hdig : ∀ c ∈ trimZeros (digitsW 9 sub), isDig c = true :=
+      fun c hc => isDig_digitsW 9 sub c (trimZeros_sub _ c hc)
+    have hlen : (trimZeros (digitsW 9 sub)).length ≤ 9 := by
+      have := trimZeros_length (digitsW 9 sub)
+      have hl : (digitsW 9 sub).length = 9 := by rw [digitsW_eq]; exact length_digitsOf 9 sub
+      omega
+    have hne := trim_ne_nil sub h h0
+    have htw : List.takeWhile isDig (trimZeros (digitsW 9 sub) ++ ['Z']) = trimZeros (digitsW 9 sub) := by
+      rw [List.takeWhile_append_of_pos hdig]
+      simp [List.takeWhile, show isDig 'Z' = false by decide]
+    simp only [lexFrac, beq_self_eq_true, if_true, htw, List.take_of_length_le hlen]
+    have : (trimZeros (digitsW 9 sub)).isEmpty = false := by
+      cases hx : trimZeros (digitsW 9 sub) with
+      | nil => exact absurd hx hne
+      | cons _ _ => rfl
+    simp only [this, Bool.false_eq_true, if_false, List.drop_left']
+
+theorem lexDate_norm (y m d : Nat) (rest : List Char) (hy : y < 10000) (hm : m < 100) (hd : d < 100) :
+    lexDate (digitsW 4 y ++ '-' :: (digitsW 2 m ++ '-' :: (digitsW 2 d ++ rest))) = some (y, m, d, rest) := by
+  have := lexDate_text y m d rest hy hm hd
+  simpa only [List.append_assoc, List.singleton_append, List.cons_append, List.nil_append] using this
+
+theorem lexClock_norm (h mi s : Nat) (rest : List Char) (hh : h < 100) (hmi : mi < 100) (hs : s < 100) :
+    lexClock (digitsW 2 h ++ ':' :: (digitsW 2 mi ++ ':' :: (digitsW 2 s ++ rest))) = some (h, mi, s, rest) := by
+  have := lexClock_text h mi s rest hh hmi hs
+  simpa only [List.append_assoc, List.singleton_append, List.cons_append, List.nil_append] using this
+
+theorem lexTs_text (y m d h mi s sub : Nat) (hy : y < 10000) (hm : m < 100) (hd : d < 100) (hh : h < 100) (hmi : mi < 100)
+    (hs : s < 100) (hsub : sub < 1000000000) :
+    lexTs (digitsW 4 y ++ '-' :: (digitsW 2 m ++ '-' :: (digitsW 2 d ++ 'T' :: (digitsW 2 h ++ ':' :: (digitsW 2 mi ++ ':' ::
+      (digitsW 2 s ++ (fracJ sub ++ ['Z']))))))) =
+      some ⟨y, m, d, some (h, mi, s, if sub = 0 then none else some (trimZeros (digitsW 9 sub))), some none⟩ := by
+  unfold lexTs
+  rw [lexDate_norm y m d _ hy hm hd]
+  simp only [bne_self_eq_false, Bool.false_eq_true, if_false]
+  rw [lexClock_norm h mi s _ hh hmi hs]
+  simp only
+  rw [lexFrac_text sub hsub]
+  simp only
+  rfl
+
+theorem daysInMonth_le (y : Int) (m : Nat) : daysInMonth y m ≤ 31 := by
+  unfold daysInMonth
+  split <;> try omega
+  split <;> omega
+
+/-- **the serialised text of an instant reads back as that instant** -/
+theorem parseTsJson_tsJsonChars (ns : Int) (hok : instantOk ns = true) : parseTsJson (tsJsonChars ns) = .ok ns := by
+  unfold tsJsonChars
+  rcases hc : civilAt ns 0 with ⟨y, m, d, h, mi, s, sub⟩
+  obtain ⟨hm1, hm2, hd1, hd2, hh, hmi, hs, hsub, hns⟩ := civilNs_civilAt ns 0 y m d h mi s sub hc
+  simp only
+  have hd31 : d ≤ 31 := Nat.le_trans hd2 (daysInMonth_le y m)
+  have hok' : -377705023201 * 1000000000 ≤ ns ∧ ns ≤ 253402207200 * 1000000000 + 999999999 := by
+    unfold instantOk at hok
+    simpa using hok
+  have hdays : -4371586 ≤ daysFromCivil y m d ∧ daysFromCivil y m d ≤ 2932895 := by omega
+  obtain ⟨hy1, hy2⟩ := year_bounds y m d ⟨hm1, hm2⟩ ⟨hd1, hd31⟩ hdays.1 hdays.2
+  have hcivil : ∀ Y : Int, Y = y → civilNsI Y m d h mi s sub = ns := by
+    intro Y hY
+    subst hY
+    unfold civilNsI
+    omega
+  simp only [List.append_assoc, List.cons_append, List.nil_append]
+  unfold yearJ
+  by_cases hneg : y < 0
+  · -- `-00YYYY`
+    rw [if_pos hneg]
+    have hn : y.natAbs < 10000 := by omega
+    have hn0 : y.natAbs ≠ 0 := by omega
+    have e5 : dch (y.natAbs / 10 / 10 / 10 / 10 / 10) = '0' := dch_zero _ (by omega)
+    have e4 : dch (y.natAbs / 10 / 10 / 10 / 10) = '0' := dch_zero _ (by omega)
+    have e6 : digitsW 6 y.natAbs = '0' :: '0' :: digitsW 4 y.natAbs := by
+      rw [digitsW_six, digitsW_four, e5, e4]
+    rw [e6]
+    simp only [List.cons_append]
+    unfold parseTsJson
+    have hp : Regex.stripPrefix ['-', '0', '0'] ('-' :: '0' :: '0' :: (digitsW 4 y.natAbs ++ '-' :: (digitsW 2 m ++ '-' ::
+        (digitsW 2 d ++ 'T' :: (digitsW 2 h ++ ':' :: (digitsW 2 mi ++ ':' :: (digitsW 2 s ++ (fracJ sub ++ ['Z'])))))))) =
+        some (digitsW 4 y.natAbs ++ '-' :: (digitsW 2 m ++ '-' ::
+        (digitsW 2 d ++ 'T' :: (digitsW 2 h ++ ':' :: (digitsW 2 mi ++ ':' :: (digitsW 2 s ++ (fracJ sub ++ ['Z']))))))) := by
+      simp [Regex.stripPrefix, List.isPrefixOf]
+    rw [hp]
+    simp only
+    rw [lexTs_text y.natAbs m d h mi s sub hn (by omega) (by omega) (by omega) (by omega) (by omega) hsub]
+    simp only
+    have hY : -((y.natAbs : Nat) : Int) = y := by omega
+    unfold resolveJ
+    simp only [hn0, and_false, if_false, if_true, hY, hm1, hm2, hd1, hd2, and_self, decide_true, Bool.and_self, Bool.not_true,
+      Bool.false_eq_true]
+    rw [if_neg (by omega), if_neg (by omega)]
+    by_cases h0 : sub = 0
+    · simp only [h0, if_true]
+      rw [← h0, hcivil y rfl, if_pos hok]
+    · simp only [h0, if_false]
+      rw [fracNs_trim sub hsub, hcivil y rfl, if_pos hok]
+  · -- `YYYY`
+    rw [if_neg hneg]
+    have hn : y.toNat < 10000 := by omega
+    unfold parseTsJson
+    have hfirst := dch_ne (y.toNat / 10 / 10 / 10)
+    have hp1 : ∀ X, Regex.stripPrefix ['-', '0', '0'] (digitsW 4 y.toNat ++ X) = none := by
+      intro X
+      simp [Regex.stripPrefix, List.isPrefixOf, digitsW_four, Ne.symm hfirst.1]
+    have hp2 : ∀ X, Regex.stripPrefix ['+', '0', '0'] (digitsW 4 y.toNat ++ X) = none := by
+      intro X
+      simp [Regex.stripPrefix, List.isPrefixOf, digitsW_four, Ne.symm hfirst.2.1]
+    rw [hp1, hp2]
+    simp only
+    rw [lexTs_text y.toNat m d h mi s sub hn (by omega) (by omega) (by omega) (by omega) (by omega) hsub]
+    simp only
+    have hY : ((y.toNat : Nat) : Int) = y := by omega
+    unfold resolveJ
+    simp only [Bool.false_eq_true, false_and, if_false, hY, hm1, hm2, hd1, hd2, and_self, decide_true, Bool.and_self, Bool.not_true]
+    rw [if_neg (by omega), if_neg (by omega)]
+    by_cases h0 : sub = 0
+    · simp only [h0, if_true]
+      rw [← h0, hcivil y rfl, if_pos hok]
+    · simp only [h0, if_false]
+      rw [fracNs_trim sub hsub, hcivil y rfl, if_pos hok]
+
+
+theorem resolveJ_ok (b : Bool) (t : TsToken) (ns : Int) (h : resolveJ b t = .ok ns) : instantOk ns = true := by
+  unfold resolveJ at h
+  (repeat' split at h) <;> first | (cases h; done) | (cases h; assumption)
+
+/-- whatever `parseTsJson` reads is an instant inside jiff's range -/
+theorem parseTsJson_ok (cs : List Char) (ns : Int) (h : parseTsJson cs = .ok ns) : instantOk ns = true := by
+  unfold parseTsJson at h
+  (repeat' split at h) <;> first | (cases h; done) | exact resolveJ_ok _ _ _ h
+
+end Timestamps
+
 end FilterDef
 end Tackler
